@@ -25,6 +25,7 @@ ObsOK(o, e) ==
     CASE e.op = "put"      -> o.evn = e.evn /\ o.evb = e.evb
       [] e.op = "get"      -> o.hit = e.hit /\ (e.hit => o.v = e.v)
       [] e.op = "contains" -> o.r = e.r
+      [] e.op = "items"    -> e.ks = [i \in 1..Len(q) |-> q[i].k]   \* a snapshot of the cache as it is now
       [] OTHER             -> TRUE
 
 InvOK(s) == /\ (MaxE = 0 \/ Len(s) <= MaxE)
